@@ -91,6 +91,8 @@ type Run struct {
 //	"O"      push Builder.Token()
 //	"A"      pop the innermost open token and Token.Apply(k): formats everything written since
 //	"B"      pop the outermost open token and apply (overlapping, non-nested ranges)
+//	"S"      Builder.ShrinkPreCode() (what html.HTML / markdown.Markdown call after parsing; no Pre
+//	         kind is used here, so it must not change any entity)
 //
 // API "builder" calls the builder directly; API "styling" wraps every operation into a
 // styling.StyledTextOption (Custom for W, G, O, A, B) and runs styling.Perform.
@@ -160,6 +162,8 @@ func Exec(ops []string, api string) (*Run, error) {
 			r.Pieces = append(r.Pieces, Piece{Kind: k1, Off: u16, Len: UTF16Len(s)}, Piece{Kind: k2, Off: u16, Len: UTF16Len(s)})
 			full.WriteString(s)
 			u16 += UTF16Len(s)
+		case "S":
+			do(func(b *entity.Builder) { b.ShrinkPreCode() }, nil)
 		case "O":
 			do(func(b *entity.Builder) { tokens = append(tokens, b.Token()) }, nil)
 			refTokens = append(refTokens, u16)
